@@ -43,6 +43,14 @@ class Native(object):
         self.fn = fn
 
 
+class PyRaise(NotConst):
+    """The evaluated code raises a Python exception (still 'not a constant' for callers that do not model exceptions)."""
+
+    def __init__(self, msg, exc_name, exc=None):
+        NotConst.__init__(self, msg)
+        self.exc_name, self.exc = exc_name, exc
+
+
 class _Return(Exception):
     def __init__(self, v):
         self.v = v
@@ -56,7 +64,7 @@ class _Continue(Exception):
     pass
 
 
-BUILTIN_TYPES = {'list': list, 'dict': dict, 'tuple': tuple, 'str': str, 'int': int, 'set': set}
+BUILTIN_TYPES = {'list': list, 'dict': dict, 'tuple': tuple, 'str': str, 'int': int, 'set': set, 'bool': bool, 'float': float}
 
 
 class Opaque(object):
@@ -260,7 +268,7 @@ class Evaluator(object):
         try:
             return v[self._hashable(k) if isinstance(v, dict) else k]
         except Exception as e:
-            raise NotConst('subscript failed: %r' % (e,))
+            raise PyRaise('subscript failed: %r' % (e,), type(e).__name__, e)
 
     def ev_JoinedStr(self, n, loc):
         raise NotConst('f-string')
@@ -320,7 +328,7 @@ class Evaluator(object):
             try:
                 r = fn(*args, **kw)
             except Exception as e:
-                raise NotConst('builtin %s failed: %r' % (f.id, e))
+                raise PyRaise('builtin %s failed: %r' % (f.id, e), type(e).__name__, e)
             if f.id in ('zip', 'enumerate', 'range'):
                 r = list(r)
             return r
@@ -341,10 +349,15 @@ class Evaluator(object):
                     try:
                         r = getattr(recv, f.attr)(*args, **kw)
                     except Exception as e:
-                        raise NotConst('method %s failed: %r' % (f.attr, e))
+                        raise PyRaise('method %s failed: %r' % (f.attr, e), type(e).__name__, e)
                     if f.attr in ('keys', 'values', 'items'):
                         r = list(r)
                     return r
+            if isinstance(recv, (list, dict)) and f.attr == 'pop':
+                try:
+                    return recv.pop(*args)
+                except Exception as e:
+                    raise PyRaise('pop failed: %r' % (e,), type(e).__name__, e)
             if isinstance(recv, Opaque):
                 return Opaque('%s.%s(...)' % (recv.what, f.attr), n)
         if self.opaque_names:
@@ -489,6 +502,31 @@ class Evaluator(object):
             return
         elif isinstance(st, ast.Return):
             raise _Return(self.ev(st.value, loc) if st.value is not None else None)
+        elif isinstance(st, ast.Raise):
+            nm = None
+            if st.exc is not None:
+                f_ = st.exc.func if isinstance(st.exc, ast.Call) else st.exc
+                nm = f_.id if isinstance(f_, ast.Name) else None
+            raise PyRaise('raise %s' % nm, nm or 'Exception')
+        elif isinstance(st, ast.Try) and not st.finalbody:
+            try:
+                self.exec_stmts(st.body, scope)
+            except PyRaise as e:
+                hierarchy = {'KeyError': ('LookupError',), 'IndexError': ('LookupError',), 'UnicodeError': ('ValueError',)}
+                names = (e.exc_name,) + hierarchy.get(e.exc_name, ()) + ('Exception', 'BaseException')
+                for h in st.handlers:
+                    types = None
+                    if h.type is not None:
+                        types = [x.id for x in (h.type.elts if isinstance(h.type, ast.Tuple) else [h.type]) if isinstance(x, ast.Name)]
+                    if types is None or any(t in names for t in types):
+                        if h.name:
+                            raise NotConst('except ... as name')
+                        self.exec_stmts(h.body, scope)
+                        break
+                else:
+                    raise
+            else:
+                self.exec_stmts(st.orelse, scope)
         else:
             raise NotConst('statement %s' % type(st).__name__)
 
